@@ -149,3 +149,16 @@ pub fn lsm(args: &[String]) -> i32 {
     print!("{}", out);
     0
 }
+
+// b64 <hex>...: what the library's base64 engine (BASE64_STANDARD, as cache/signing.rs uses it) makes of each string
+pub fn b64(args: &[String]) -> i32 {
+    use base64::Engine;
+    for t in args {
+        let raw = if t == "e" { vec![] } else { hex::decode(t).expect("hex") };
+        match base64::prelude::BASE64_STANDARD.decode(&raw) {
+            Ok(b) => println!("b64:{}=ok:{}", t, if b.is_empty() { "e".to_string() } else { hex::encode(b) }),
+            Err(_) => println!("b64:{}=err", t),
+        }
+    }
+    0
+}
